@@ -118,9 +118,11 @@ AXES_INPLANE_THOROUGH = ["inplane_b", "rot90z", "rot180z"]
 NONUNIT = {"x2": (2.0, 2.0), "x0.5": (0.5, 0.5), "mixed": (2.0, 0.5), "x1e6": (1e6, 3e5), "x1e6b": (1e6, -3e5)}
 
 # "elem_intPa": the moduli as per-element INTEGER arrays in Pa (1e6 x the MPa values), Poisson ratios as floats
-PSETS = ["hom_a", "hom_b", "elem", "gauss", "elem_intPa"]
+# "hom_inc": a nearly incompressible material (Poisson ratios 2e-5 below their incompressible values, cond(C) ~ 1e5: rubber, soft tissue)
+PSETS = ["hom_a", "hom_b", "elem", "gauss", "elem_intPa", "hom_inc"]
+INC = 1.0 - 2e-5
 PSETS_THOROUGH = ["hom_c", "collide6", "collide3"]
-PSET_SHAPE = {"hom_a": (), "hom_b": (), "hom_c": (), "elem": (3,), "gauss": (3, 2), "collide6": (6, 6), "collide3": (3, 3), "elem_intPa": (3,)}
+PSET_SHAPE = {"hom_a": (), "hom_b": (), "hom_c": (), "hom_inc": (), "elem": (3,), "gauss": (3, 2), "collide6": (6, 6), "collide3": (3, 3), "elem_intPa": (3,)}
 
 DIMMODES = ["2PS", "2PE", "3D"]
 
@@ -129,18 +131,21 @@ ENG = {
         "hom_a": dict(E=210000, v=0.3),  # int modulus on purpose (the suite's value)
         "hom_b": dict(E=3.7, v=-0.4),
         "hom_c": dict(E=1.0, v=0.49),
+        "hom_inc": dict(E=1.5, v=0.5 * INC),
         "partial": ["E"],
     },
     "TransverselyIsotropic": {
         "hom_a": dict(El=11580, Et=500, Gl=450, vl=0.02, vt=0.44),
         "hom_b": dict(El=40.0, Et=130.0, Gl=25.0, vl=0.11, vt=-0.2),
         "hom_c": dict(El=1.0, Et=1.0, Gl=0.4, vl=0.25, vt=0.25),
+        "hom_inc": dict(El=2.0, Et=3.0, Gl=0.8, vl=0.5 * INC, vt=0.25 * INC),  # incompressible: vl = 1/2, vt = 1 - Et / (2 El)
         "partial": ["El", "Gl"],
     },
     "Orthotropic": {
         "hom_a": dict(E1=11580, E2=500, E3=700, G23=200, G13=450, G12=400, v23=0.3, v13=0.02, v12=0.03),
         "hom_b": dict(E1=10.0, E2=20.0, E3=15.0, G23=4.0, G13=6.0, G12=5.0, v23=0.35, v13=-0.1, v12=0.25),
         "hom_c": dict(E1=2.0, E2=2.0, E3=2.0, G23=0.8, G13=0.8, G12=0.8, v23=0.25, v13=0.25, v12=0.25),
+        "hom_inc": dict(E1=2.0, E2=3.0, E3=3.0, G23=1.0, G13=0.8, G12=0.7, v23=0.25 * INC, v13=0.5 * INC, v12=0.5 * INC),
         "partial": ["E1", "G12", "v23"],
     },
 }
@@ -170,6 +175,8 @@ def law_psets(law, tier):
     """Parameter sets of a law: 2 homogeneous, per-element (a subset of the constants), per-Gauss-point (all constants),
     and 'only:<name>': exactly one constant is a per-element field (complete over the constants of the law)."""
     out = PSETS + (PSETS_THOROUGH if tier == "thorough" else [])
+    if law == "Anisotropic":
+        out = [p for p in out if p != "hom_inc"]  # engineering constants only (a matrix has no Poisson ratio to push to its bound)
     if law != "Anisotropic":
         out = out + [f"only:{n}" for n in ENG[law]["hom_a"]]
     return out
@@ -551,6 +558,7 @@ def describe(tier, seed):
         "bound": f"full product: {nl} law configurations, {npm} Get_Pmat/Apply_Pmat configurations, {ne} E2 cases covering every "
                  "history with <= 2 assignments, read slots in " + str(_e2_reads(tier)) + " (last slot " + str(E2_LAST_READS) + "), then reads C, S, C" + "; generic axes / SPD matrices are seeded representatives",
         "alphabet": {"laws": 4, "dim_modes": 3, "parameter_sets": {law: len(law_psets(law, tier)) for law in LAWS},
+                     "parameter_set_letters": PSETS + (PSETS_THOROUGH if tier == "thorough" else []) + ["only:<constant>"],
                      "axes_3d": len(AXES_3D) + (len(AXES_3D_THOROUGH) if tier == "thorough" else 0),
                      "axes_inplane": len(AXES_INPLANE) + (len(AXES_INPLANE_THOROUGH) if tier == "thorough" else 0),
                      "notations": 2, "pmat_shapes": len(PMAT_SHAPES) + (len(PMAT_SHAPES_THOROUGH) if tier == "thorough" else 0),
@@ -559,6 +567,8 @@ def describe(tier, seed):
         "assumptions": [
             "reference: compliance from the documented engineering constants, inverse by numpy.linalg, rotation on the 3x3x3x3 tensor, own Kelvin-Mandel/Voigt conversion",
             f"tolerance max(1e-12, 200 eps cond(C)) relative to max|C|; parameter sets with cond(C) > {COND_MAX:g} are skipped (none in the alphabet)",
+            "hom_inc = nearly incompressible homogeneous set (Poisson ratios 2e-5 below their incompressible values, cond(C) ~ 1e5, inside the conditioning assumption) "
+            "of the three laws given by engineering constants",
             "Anisotropic has no plane-stress mode (constructor forces planeStress=False); a 3x3 anisotropic input only takes in-plane axes",
             "all array parameters of a law share one shape (documented requirement); E2 histories leading to mixed shapes are pruned and counted",
             "Anisotropic.Walpole_Decomposition returns nothing by design (outcome 'no_walpole'); Set_C(update_S=False) is a documented opt-out and not explored",
@@ -623,7 +633,12 @@ def _run_law(case):
     cond = _cond(Cexp)
     if not cond <= COND_MAX:
         return {"violations": [], "skipped": "cond(C) above the conditioning assumption", "fingerprint": "illcond", "nontrivial": False}
-    tol = _tol(cond)
+    # the reference (and the harness' own 2D reduction) go through the inverse of the 3D material: their accuracy is eps * cond of THAT
+    # matrix, also where the reduced 2D law itself is well conditioned (plane stress of a nearly incompressible material)
+    cond3 = cond if C3exp is None else max(cond, _cond(C3exp))
+    if not cond3 <= COND_MAX:
+        return {"violations": [], "skipped": "cond(C) above the conditioning assumption", "fingerprint": "illcond", "nontrivial": False}
+    tol = _tol(cond3)
     Sexp = np.linalg.inv(Cexp)
 
     try:
@@ -647,7 +662,7 @@ def _run_law(case):
     # --- intrinsic: symmetric, positive definite, mutually inverse
     for nm, A in (("C", C), ("S", S)):
         e = _sym_err(A)
-        if e > 1e-12:
+        if e > max(1e-12, EPS * cond3):  # C or S is the numerical inverse of the other: symmetric to eps * cond (1e-12 up to cond 4.5e3)
             v.append(viol("symmetry", f"{nm} != {nm}^T (rel {e:.2e})", matrix=nm, **key))
         lam = np.linalg.eigvalsh((A + np.swapaxes(A, -1, -2)) / 2)
         if not np.min(lam) > 0:
